@@ -133,16 +133,24 @@ struct Fields {
     max: usize,
     paid: usize,
     live: u64,
-    size: Option<u64>,
+    size: u64,
     addr: [u8; 20],
 }
+/// `with_size`: whether network_size is Some (the shape, hence the encoded length, is concrete per harness)
 fn any_fields() -> Fields {
     let secs: u64 = kani::any();
     kani::assume(secs < (1u64 << 40));
     Fields { content: kani::any(), secs, close: kani::any(), max: kani::any(), paid: kani::any(), live: kani::any(), size: kani::any(), addr: kani::any() }
 }
-fn bytes_of(f: &Fields) -> Vec<u8> {
-    let qm = QuotingMetrics { close_records_stored: f.close, max_records: f.max, received_payment_count: f.paid, live_time: f.live, network_density: None, network_size: f.size };
+fn bytes_of(f: &Fields, with_size: bool) -> Vec<u8> {
+    let qm = QuotingMetrics {
+        close_records_stored: f.close,
+        max_records: f.max,
+        received_payment_count: f.paid,
+        live_time: f.live,
+        network_density: None,
+        network_size: if with_size { Some(f.size) } else { None },
+    };
     PaymentQuote::bytes_for_signing(XorName(f.content), SystemTime::UNIX_EPOCH + Duration::from_secs(f.secs), &qm, &Address::from(f.addr))
 }
 fn differ(a: &Vec<u8>, b: &Vec<u8>) -> bool {
@@ -161,7 +169,7 @@ fn differ(a: &Vec<u8>, b: &Vec<u8>) -> bool {
 }
 
 macro_rules! binds {
-    ($name:ident, $field:ident, $what:expr) => {
+    ($name:ident, $field:ident, $with_size:expr) => {
         #[kani::proof]
         #[kani::unwind(140)]
         #[kani::stub(rmp_serde::to_vec, fixed_to_vec)]
@@ -170,21 +178,36 @@ macro_rules! binds {
             let mut b = a;
             b.$field = kani::any();
             kani::assume(b.$field != a.$field);
-            if $what == "secs" {
-                kani::assume((b.secs) < (1u64 << 40));
-            }
-            let ba = bytes_of(&a);
-            let bb = bytes_of(&b);
+            kani::assume(b.secs < (1u64 << 40));
+            let ba = bytes_of(&a, $with_size);
+            let bb = bytes_of(&b, $with_size);
             assert!(differ(&ba, &bb), "altering this field leaves the signed bytes unchanged");
             kani::cover!(true, "compared");
+            core::mem::forget(ba);
+            core::mem::forget(bb);
         }
     };
 }
-binds!(c13_signed_bytes_bind_content, content, "content");
-binds!(c13_signed_bytes_bind_timestamp_seconds, secs, "secs");
-binds!(c13_signed_bytes_bind_close_records_stored, close, "close");
-binds!(c13_signed_bytes_bind_max_records, max, "max");
-binds!(c13_signed_bytes_bind_received_payment_count, paid, "paid");
-binds!(c13_signed_bytes_bind_live_time, live, "live");
-binds!(c13_signed_bytes_bind_network_size, size, "size");
-binds!(c13_signed_bytes_bind_rewards_address, addr, "addr");
+binds!(c13_signed_bytes_bind_content, content, true);
+binds!(c13_signed_bytes_bind_timestamp_seconds, secs, true);
+binds!(c13_signed_bytes_bind_close_records_stored, close, true);
+binds!(c13_signed_bytes_bind_max_records, max, true);
+binds!(c13_signed_bytes_bind_received_payment_count, paid, true);
+binds!(c13_signed_bytes_bind_live_time, live, true);
+binds!(c13_signed_bytes_bind_network_size, size, true);
+binds!(c13_signed_bytes_bind_rewards_address, addr, true);
+binds!(c13_signed_bytes_without_network_size_bind_live_time, live, false);
+
+/// network_size present vs absent
+#[kani::proof]
+#[kani::unwind(140)]
+#[kani::stub(rmp_serde::to_vec, fixed_to_vec)]
+fn c13_signed_bytes_bind_presence_of_network_size() {
+    let a = any_fields();
+    let ba = bytes_of(&a, true);
+    let bb = bytes_of(&a, false);
+    assert!(differ(&ba, &bb), "dropping network_size leaves the signed bytes unchanged");
+    kani::cover!(true, "compared");
+    core::mem::forget(ba);
+    core::mem::forget(bb);
+}
